@@ -227,6 +227,9 @@ bool DOMNodeIteratorImpl::acceptNode (DOMNode* node) {
 /** Return node, if matches or any parent if matches. */
 DOMNode* DOMNodeIteratorImpl::matchNodeOrParent (DOMNode* node) {
 
+    // Removals may occur before the iterator has been stepped: there is no reference node yet
+    if (!fCurrentNode) return 0;
+
     for (DOMNode* n = fCurrentNode; n != fRoot; n = n->getParentNode()) {
         if (node == n) return n;
     }
